@@ -906,6 +906,38 @@ func L2Security(thorough bool) []MethodCase {
 			}
 		}
 	}
+	// the same secured method exposed over HTTP AND gRPC: each transport computes the credential
+	// location on its own copy of the requirement
+	for _, one := range []Requirement{{{Scheme: "jwt", Scopes: []string{"s1"}}}, {{Scheme: "oa2", Scopes: []string{"s2"}}}, {{Scheme: "bsc"}}, {{Scheme: "aks"}}, {{Scheme: "jwt", Scopes: []string{"s1"}}, {Scheme: "aks"}}} {
+		st := &Security{Reqs: []Requirement{one}}
+		for _, mapping := range []string{"explicit", "implicit"} {
+			if mapping == "implicit" && one[0].Scheme != "jwt" && one[0].Scheme != "oa2" {
+				continue
+			}
+			name := fmt.Sprintf("m%d", n)
+			n++
+			m := secMethod(name, usedSchemes(st), false)
+			m.Security = st
+			if mapping == "implicit" {
+				var keep []Map
+				for _, h := range m.HTTP.Headers {
+					if h.Attr != "tok" && h.Attr != "atok" {
+						keep = append(keep, h)
+					}
+				}
+				m.HTTP.Headers = keep
+			}
+			for i, a := range m.Payload.Attrs {
+				a.Tag = i + 1
+			}
+			for i, a := range m.Result.Attrs {
+				a.Tag = i + 1
+			}
+			m.GRPC = &GRPCMap{}
+			m.Feat["level"], m.Feat["reqs"], m.Feat["override"], m.Feat["mapping"], m.Feat["transport"] = "method", desc(st), "none", mapping, "http+grpc"
+			out = append(out, MethodCase{M: m, Schemes: SecSchemes(), Own: true})
+		}
+	}
 	// overrides: service/API level requirement, method overrides with another one or NoSecurity
 	base := &Security{Reqs: []Requirement{red[0]}}
 	other := &Security{Reqs: []Requirement{red[2], red[1]}}
@@ -1046,7 +1078,7 @@ func L2Views(thorough bool) []MethodCase {
 	{
 		owner := &TypeDef{Name: "Owner", Kind: "result",
 			Attrs:    []*Attr{A("id", P(KString)), A("oname", P(KString)), A("ssn", P(KString))},
-			Required: []string{"id"},
+			Required: []string{"id", "oname"}, // oname is required but outside the tiny view
 			Views:    []View{{Name: "default", Attrs: []string{"id", "oname"}}, {Name: "full", Attrs: []string{"id", "oname", "ssn"}}, {Name: "tiny", Attrs: []string{"id"}}}}
 		ow := User("Owner")
 		ow.View = "full"
@@ -1059,6 +1091,51 @@ func L2Views(thorough bool) []MethodCase {
 				{Name: "mix", Attrs: []string{"num", "owner", "co"}, Sub: map[string]string{"owner": "tiny", "co": "full"}},
 			}}
 		add(User("Account"), []*TypeDef{owner, account}, map[string]string{"shape": "type-level-attribute-view"})
+	}
+	// three nested attributes of one result type, adjacent or separated by plain attributes; one
+	// parent view per override vector over {none, tiny, full}^3 (complete product, 27 views)
+	for _, layout := range []string{"adjacent", "separated"} {
+		leaf := &TypeDef{Name: "Lf", Kind: "result",
+			Attrs:    []*Attr{A("id", P(KString)), A("lname", P(KString)), A("bonus", P(KInt))},
+			Required: []string{"id", "lname"},
+			Views:    []View{{Name: "default", Attrs: []string{"id", "lname"}}, {Name: "tiny", Attrs: []string{"id"}}, {Name: "full", Attrs: []string{"id", "lname", "bonus"}}}}
+		attrs := []*Attr{A("n0", User("Lf")), A("n1", User("Lf")), A("n2", User("Lf"))}
+		names := []string{"n0", "n1", "n2"}
+		if layout == "separated" {
+			attrs = []*Attr{A("n0", User("Lf")), A("s0", P(KString)), A("n1", User("Lf")), A("s1", P(KInt)), A("n2", User("Lf"))}
+			names = []string{"n0", "s0", "n1", "s1", "n2"}
+		}
+		tri := &TypeDef{Name: "Tri" + strings.Title(layout), Kind: "result", Attrs: attrs, Required: []string{"n0"}}
+		opts := []string{"", "tiny", "full"}
+		for i := 0; i < 27; i++ {
+			sub := map[string]string{}
+			vname := "v"
+			for k, a := range []string{"n0", "n1", "n2"} {
+				o := opts[(i/pow3(k))%3]
+				if o != "" {
+					sub[a] = o
+				}
+				vname += string(rune('0' + (i/pow3(k))%3))
+			}
+			if i == 0 {
+				vname = "default"
+			}
+			tri.Views = append(tri.Views, View{Name: vname, Attrs: names, Sub: sub})
+		}
+		add(User(tri.Name), []*TypeDef{leaf, tri}, map[string]string{"shape": "three-nested-" + layout})
+	}
+	// self-recursive result type: the nested occurrences are rendered with a per-view override
+	// (default -> tiny), directly and through an array
+	{
+		node := &TypeDef{Name: "VNode", Kind: "result",
+			Attrs:    []*Attr{A("val", P(KString)), A("note", P(KString)), A("next", User("VNode")), A("kids", ArrT(User("VNode")))},
+			Required: []string{"val"},
+			Views: []View{
+				{Name: "default", Attrs: []string{"val", "note", "next", "kids"}, Sub: map[string]string{"next": "tiny", "kids": "tiny"}},
+				{Name: "tiny", Attrs: []string{"val"}},
+				{Name: "chain", Attrs: []string{"val", "next"}, Sub: map[string]string{"next": "chain"}},
+			}}
+		add(User("VNode"), []*TypeDef{node}, map[string]string{"shape": "recursive"})
 	}
 	// collection
 	{
@@ -1192,4 +1269,12 @@ func L1ValidationPairs(side string) []MethodCase {
 	add([]attrAt{{A("aa", ArrT(User("ShS"))), LocBody, true}, {A("bb", WithV(User("ShS"), &Valid{Enum: []any{"basic", "pro"}})), LocBody, false}},
 		[]*TypeDef{aliasS}, map[string]string{"valid": "shared-alias-array+attr", "pos": "array-element+attribute", "loc": LocBody, "req": "required+optional"})
 	return out
+}
+
+func pow3(k int) int {
+	r := 1
+	for ; k > 0; k-- {
+		r *= 3
+	}
+	return r
 }
